@@ -37,12 +37,14 @@ Definition prop_holds (c : case) : bool :=
   | _, _ => false
   end.
 
-(** [f1], [f2]: whether the implementation is expected to carry the repairs of C05-F1 / C05-F2 *)
+(** [f1], [f2]: whether the implementation is expected to carry the repairs of C05-F1 / C05-F2
+    (/repo does since a3a89b7 / f16c3cc: the check runs [check true true]) *)
 Definition check (f1 f2 : bool) (c : case) : verdict :=
   {| v_corr := obs_eqb (obs_of (authenticate_gen f1 f2 (c_cf c) (c_keys c) (secs (c_now c)) (c_cred c))) (c_obs c);
      v_prop := prop_holds c;
-     v_guards := guards [(1%Z, if f1 then guard_F1_residual (c_cred c) else guard_F1 (c_cred c));
-                         (2%Z, guard_F2 (c_cred c) && negb f2)] |}.
+     v_guards := guards [(1%Z, guard_F1 (c_cred c) && negb f1);
+                         (2%Z, guard_F2 (c_cred c) && negb f2);
+                         (3%Z, guard_F3 (c_cred c) && f1)] |}.
 
 (* short constructors for the generated case files *)
 Definition ex i s a g l := {| e_issuers := i; e_scopes := s; e_aud := a; e_algs := g; e_leeway := l |}.
